@@ -255,9 +255,10 @@ func (d *Driver) Do(s Step) (res Result) {
 	if s.Msg == 12 && s.Fault == "" {
 		res.OK = true // any well-formed HMAC structure passes: nothing in it can be checked by the manufacturer
 	}
-	// the owner looks the voucher up by GUID at 60, 62, 64 and, when replacing it, at 70: once a completed TO2 has replaced
+	// the owner looks the voucher up by GUID at 60, 62, 64, at 66 when the deployment sizes the device's messages per
+	// voucher (MaxDeviceServiceInfoSize), and, when replacing it, at 70: once a completed TO2 has replaced
 	// it (the device now lives under the replacement GUID) those requests name a voucher that is gone
-	if s.Msg == 60 || s.Msg == 62 || s.Msg == 64 || (s.Msg == 70 && !d.cfg.Reuse) {
+	if s.Msg == 60 || s.Msg == 62 || s.Msg == 64 || (s.Msg == 66 && d.e.TO2S.MaxDeviceServiceInfoSize != nil) || (s.Msg == 70 && !d.cfg.Reuse) {
 		if _, err := d.e.DB.Voucher(d.ctx, d.dev.Cred.GUID); err != nil {
 			res.OK = false
 		}
